@@ -96,6 +96,12 @@ class Ctx:
         self.case = None
         self.t0 = time.time()
         self.notes: list[str] = []
+        self.inconclusive_reasons: list[str] = []
+
+    def inconclusive(self, reason: str):
+        """A deciding monitor could not be applied (e.g. an entry point the driver cannot drive)."""
+        if reason not in self.inconclusive_reasons:
+            self.inconclusive_reasons.append(reason)
 
     # ---- randomness -------------------------------------------------
     def rng(self, *key) -> random.Random:
@@ -141,6 +147,7 @@ class Ctx:
             "violations": self.violations, "violation_counts": self.violation_counts,
             "samples": self.samples, "evaluations": self.evaluations,
             "wall": time.time() - self.t0, "notes": self.notes,
+            "inconclusive_reasons": self.inconclusive_reasons,
         }
 
 
@@ -201,6 +208,9 @@ def _merge(into: dict, part: dict):
             into["samples"].append(s)
     into["evaluations"] += part["evaluations"]
     into["notes"].extend(part.get("notes", []))
+    for r in part.get("inconclusive_reasons", []):
+        if r not in into["inconclusive_reasons"]:
+            into["inconclusive_reasons"].append(r)
 
 
 def _validate_evidence(ev):
@@ -266,8 +276,8 @@ def main(mod):
     tmpdir = os.path.join("/var/tmp", "operon-verif-%s-%d" % (mod.PID, os.getpid()))
     os.makedirs(tmpdir, exist_ok=True)
     merged = {"counters": {}, "fingerprints": set(), "violations": [], "violation_counts": {},
-              "samples": [], "evaluations": 0, "notes": []}
-    inconclusive = []
+              "samples": [], "evaluations": 0, "notes": [], "inconclusive_reasons": []}
+    inconclusive = merged["inconclusive_reasons"]
     procs = []
     try:
         modname = mod.__spec__.name if getattr(mod, "__spec__", None) else None
